@@ -19,7 +19,7 @@
 From Coq Require Import List Ascii String ZArith NArith Bool Lia Arith.
 From Shexer Require Import Lib.PyStr Lib.Dict Gen.Consts Spec.Rdf Model.Tracker Model.Profiler
      Model.Freq Model.Shexing Model.Run Model.RunCur Model.Channels Spec.ChannelSpec Proofs.ChannelProofs Proofs.ChannelReaders.
-From Shexer Require Model.NtReader Spec.NtSyntax Spec.NtDom Spec.NtDomCur Proofs.NtProofs Proofs.NtProofsFx Proofs.NtTotal.
+From Shexer Require Model.NtReader Spec.NtSyntax Spec.NtDom Spec.NtDomCur Proofs.NtProofs Proofs.NtProofsFx Proofs.NtTotal Proofs.NtDocs.
 Import ListNotations.
 
 (** ** the document loop over an arbitrary one-line function *)
@@ -79,8 +79,10 @@ Qed.
 Theorem nt_reader_g_blank_silent pl : blank_is_error pl -> blank_silent (nt_reader_g pl).
 Proof. intros B l H. exists 1. rewrite nt_reader_g_fold. cbn [nt_fold_g]. rewrite (B l H). reflexivity. Qed.
 
-(** ** the reader /repo has now *)
-Definition nt_reader_cur (allow : bool) : list str -> rd := nt_reader_g (NtReader.process_line_cur allow).
+(** ** the reader /repo has now: the lines that are not skipped ([nt_skips_comment_lines]:
+    blank lines and comment lines), each through [process_line_cur] *)
+Definition nt_reader_cur (allow : bool) (ls : list str) : rd :=
+  nt_reader_g (NtReader.process_line_cur allow) (NtReader.kept_lines nt_skips_comment_lines ls).
 
 Lemma process_line_cur_strip_only allow : strip_only (NtReader.process_line_cur allow).
 Proof.
@@ -96,31 +98,33 @@ Proof.
   rewrite H. destruct nt_fixed_tok; [destruct nt_fixed_dlt|]; [destruct nt_tok_end_at_hash, nt_uri_unclosed_to_eol| |]; reflexivity.
 Qed.
 
-Theorem nt_reader_cur_compositional allow : line_compositional (nt_reader_cur allow).
-Proof. apply nt_reader_g_compositional, process_line_cur_strip_only. Qed.
+Lemma kept_lines_app sk a b : NtReader.kept_lines sk (a ++ b) = NtReader.kept_lines sk a ++ NtReader.kept_lines sk b.
+Proof. unfold NtReader.kept_lines. destruct sk; [apply filter_app | reflexivity]. Qed.
 
+Lemma skipped_strip_only l l' : strip l = strip l' -> NtReader.is_skipped_line l = NtReader.is_skipped_line l'.
+Proof. unfold NtReader.is_skipped_line. intros ->. reflexivity. Qed.
+
+Theorem nt_reader_cur_compositional allow : line_compositional (nt_reader_cur allow).
+Proof.
+  pose proof (nt_reader_g_compositional _ (process_line_cur_strip_only allow)) as [N A S].
+  unfold nt_reader_cur. constructor.
+  - destruct nt_skips_comment_lines; exact N.
+  - intros a b. rewrite kept_lines_app. apply A.
+  - intros l l' H. unfold NtReader.kept_lines. destruct nt_skips_comment_lines; [|apply S; exact H].
+    cbn [filter]. rewrite (skipped_strip_only l l' H). destruct (NtReader.is_skipped_line l'); [reflexivity|].
+    cbn [negb]. apply S. exact H.
+Qed.
+
+(** a blank line yields nothing: skipped, or a discarded line *)
 Theorem nt_reader_cur_blank_silent allow : blank_silent (nt_reader_cur allow).
-Proof. apply nt_reader_g_blank_silent, process_line_cur_blank. Qed.
+Proof.
+  intros l H. unfold nt_reader_cur, NtReader.kept_lines. destruct nt_skips_comment_lines.
+  - exists 0. cbn [filter]. unfold NtReader.is_skipped_line. rewrite H. reflexivity.
+  - apply (nt_reader_g_blank_silent _ (process_line_cur_blank allow)). exact H.
+Qed.
 
 Lemma nt_reader_cur_blanks_harmless allow ls : blanks_harmless (nt_reader_cur allow) ls.
 Proof. left. apply nt_reader_cur_blank_silent. Qed.
-
-Lemma run_lines_is_g allow ls : forall acc errs,
-  NtReader.run_lines allow ls acc errs = NtReader.run_lines_g (NtReader.process_line allow) ls acc errs.
-Proof.
-  induction ls as [|l ls IH]; intros acc errs; [reflexivity|]. cbn [NtReader.run_lines NtReader.run_lines_g].
-  destruct (NtReader.process_line allow l); try reflexivity; apply IH.
-Qed.
-
-(** [read_raw_string_cur] is the document loop of [process_line_cur] over the lines of the raw string *)
-Lemma read_raw_string_cur_lines allow doc :
-  NtReader.read_raw_string_cur allow doc
-  = NtReader.run_lines_g (NtReader.process_line_cur allow) (NtReader.raw_string_lines doc) [] 0.
-Proof.
-  unfold NtReader.read_raw_string_cur, NtReader.process_line_cur.
-  destruct nt_fixed_tok; [destruct nt_fixed_dlt|]; try reflexivity.
-  unfold NtReader.read_raw_string. apply run_lines_is_g.
-Qed.
 
 (** the N-Triples channel over a raw string IS C06's [read_raw_string_cur] *)
 Lemma nt_chan_raw_cur pyfloat read_ttl gunzip unxz unzip rdf_parse allow o doc :
@@ -129,7 +133,7 @@ Lemma nt_chan_raw_cur pyfloat read_ttl gunzip unxz unzip rdf_parse allow o doc :
 Proof.
   rewrite (chan_raw pyfloat (nt_reader_cur allow) read_ttl gunzip unxz unzip rdf_parse o _ _ doc
                     (Fam_nt pyfloat (nt_reader_cur allow))).
-  rewrite lines_raw_is_raw_string_lines, read_raw_string_cur_lines. reflexivity.
+  rewrite lines_raw_is_raw_string_lines. reflexivity.
 Qed.
 
 Definition nt_ok_case_cur (x : NtSyntax.striple * NtSyntax.layout) : Prop :=
@@ -148,6 +152,31 @@ Proof.
   auto using NtProofsFx.dom_cur_total.
 Qed.
 
+(** documents with comment lines and blank lines ([NtSyntax.dline]) *)
+Definition nt_graph_of_doc (ds : list NtSyntax.dline) : graph := nt_graph (NtSyntax.statements ds).
+
+Lemma nt_raw_stream_doc pyfloat read_ttl gunzip unxz unzip rdf_parse allow o ds :
+  Forall NtDocs.dline_ok_cur ds ->
+  exists ms G,
+    rd_stream (channel pyfloat (nt_reader_cur allow) read_ttl gunzip unxz unzip rdf_parse o (Str "nt") None
+                       (SRaw (NtSyntax.nt_document ds))) = inl ms /\
+    graph_of_m ms = Some G /\ map erase_lex G = nt_graph_of_doc ds.
+Proof.
+  intros H. pose proof (NtDocs.document_lines_partial_cur allow ds H) as K.
+  rewrite nt_chan_raw_cur.
+  destruct (NtReader.read_raw_string_cur allow (NtSyntax.nt_document ds)) as [ys e|ys e x|ys e]; try discriminate K.
+  cbn [NtProofs.kinded_result] in K. injection K as K _.
+  destruct (k3_list_commutes ys (NtSyntax.statements ds) K) as (G & HG & HE).
+  exists (map nt_mtriple ys), G. split; [reflexivity | split; assumption].
+Qed.
+
+Lemma ok_cases_are_doc ts : Forall nt_ok_case_cur ts -> Forall NtDocs.dline_ok_cur (NtSyntax.stmt_lines ts).
+Proof.
+  intros H. apply Forall_forall. intros d I. apply in_map_iff in I. destruct I as (x & <- & I).
+  rewrite Forall_forall in H. destruct (H x I) as (V & VL & D). split; cbn [NtSyntax.valid_dline NtDomCur.dline_dom_cur]; [|exact D].
+  rewrite V, VL. reflexivity.
+Qed.
+
 Lemma nt_raw_stream_cur pyfloat read_ttl gunzip unxz unzip rdf_parse allow o ts :
   Forall nt_ok_case_cur ts ->
   exists ms G,
@@ -155,12 +184,11 @@ Lemma nt_raw_stream_cur pyfloat read_ttl gunzip unxz unzip rdf_parse allow o ts 
                        (SRaw (NtSyntax.nt_doc ts))) = inl ms /\
     graph_of_m ms = Some G /\ map erase_lex G = nt_graph ts.
 Proof.
-  intros H. pose proof (NtProofsFx.document_partial_cur allow ts H) as K.
-  rewrite nt_chan_raw_cur.
-  destruct (NtReader.read_raw_string_cur allow (NtSyntax.nt_doc ts)) as [ys e|ys e x|ys e]; try discriminate K.
-  cbn [NtProofs.kinded_result] in K. injection K as K _.
-  destruct (k3_list_commutes ys ts K) as (G & HG & HE).
-  exists (map nt_mtriple ys), G. split; [reflexivity | split; assumption].
+  intros H. rewrite NtDocs.nt_doc_is_document.
+  destruct (nt_raw_stream_doc pyfloat read_ttl gunzip unxz unzip rdf_parse allow o _ (ok_cases_are_doc ts H))
+    as (ms & G & A & B & C).
+  exists ms, G. split; [exact A | split; [exact B|]]. rewrite C. unfold nt_graph_of_doc.
+  rewrite NtDocs.statements_stmt_lines. reflexivity.
 Qed.
 
 Section NtCur.
@@ -215,6 +243,32 @@ Section NtCur.
     { rewrite !nt_chan_raw_cur in *. rewrite H1 in H2. injection H2 as ->. reflexivity. }
     unfold run_over_passes, graphs_of_passes, passes. cbn [fst snd]. rewrite H1, H2, HG.
     rewrite run_shapes2_same. f_equal. rewrite <- HE. symmetry. apply run_shapes_cur_erase_lex.
+  Qed.
+
+  (** the same from a document with comment lines and blank lines *)
+  Theorem nt_doc_to_graph_cur c thr (o1 o2 : porc) ds :
+    Forall NtDocs.dline_ok_cur ds ->
+    run_over_passes fa c thr (passes1 o1 o2 NT None (SRaw (NtSyntax.nt_document ds)))
+    = Some (run_shapes_cur fa c thr (nt_graph_of_doc ds)).
+  Proof.
+    intros H.
+    destruct (nt_raw_stream_doc pyfloat read_ttl gunzip unxz unzip rdf_parse allow o1 ds H) as (ms & G & H1 & HG & HE).
+    destruct (nt_raw_stream_doc pyfloat read_ttl gunzip unxz unzip rdf_parse allow o2 ds H) as (ms2 & G2 & H2 & HG2 & HE2).
+    assert (ms2 = ms) as ->.
+    { rewrite !nt_chan_raw_cur in *. rewrite H1 in H2. injection H2 as ->. reflexivity. }
+    unfold run_over_passes, graphs_of_passes, passes. cbn [fst snd]. rewrite H1, H2, HG.
+    rewrite run_shapes2_same. f_equal. rewrite <- HE. symmetry. apply run_shapes_cur_erase_lex.
+  Qed.
+
+  (** every valid document once every repair is in /repo *)
+  Theorem nt_doc_to_graph_full c thr (o1 o2 : porc) ds :
+    nt_fixed_tok = true -> nt_fixed_dlt = true -> nt_tok_end_at_hash = true -> nt_skips_comment_lines = true ->
+    Forall (fun d => NtSyntax.valid_dline d = true) ds ->
+    run_over_passes fa c thr (passes1 o1 o2 NT None (SRaw (NtSyntax.nt_document ds)))
+    = Some (run_shapes_cur fa c thr (nt_graph_of_doc ds)).
+  Proof.
+    intros E1 E2 E3 E4 H. apply nt_doc_to_graph_cur. eapply Forall_impl; [|exact H]. intros d V. split; [exact V|].
+    apply (NtDocs.dline_dom_cur_total E1 E2 E3 E4 d).
   Qed.
 
   Lemma nt_raw_lines_same_cur o o' ts :
@@ -281,9 +335,10 @@ Section NtCur.
     intros E1 E2 E3 ls. unfold nt_reader_cur, nt_reader_g.
     pose proof (NtTotal.run_lines_g_total (NtReader.process_line_cur allow)) as T.
     assert (P : forall l, NtReader.process_line_cur allow l <> NtReader.LHang).
-    { intros l. destruct (NtTotal.terminates_all_cur E1 E2 E3 allow l [] 0%nat) as (_ & _ & P). exact P. }
-    specialize (T P ls [] 0%nat).
-    destruct (NtReader.run_lines_g (NtReader.process_line_cur allow) ls [] 0) as [ys n|ys n e|ys n]; cbn [rd_of_doc].
+    { intros l. destruct (NtDocs.terminates_all_cur E1 E2 E3 allow l [] 0%nat) as (_ & _ & P). exact P. }
+    specialize (T P (NtReader.kept_lines nt_skips_comment_lines ls) [] 0%nat).
+    destruct (NtReader.run_lines_g (NtReader.process_line_cur allow) (NtReader.kept_lines nt_skips_comment_lines ls) [] 0)
+      as [ys n|ys n e|ys n]; cbn [rd_of_doc].
     - discriminate.
     - intros H. injection H as H. apply (nt_abort_inj (Some e) None) in H. discriminate.
     - exfalso. apply (T ys n). reflexivity.
